@@ -549,6 +549,16 @@ def rule_cache_shape(fx, col):
             ls, rs = _call_bbs(rv, d['l']), _call_bbs(rv, d['r'])
             if {asp[0][0], cell[0].bb} == ls | rs:
                 guard = ((d['op'] == 'Ne') == truth)
+        elif r2 and r2[0] and r2[0][0] == 'call' and U.callee_name(r2[0][2]) in ('eq', 'ne') and len(r2[0][2]['args']) == 2 \
+                and (r2[0][2]['callee'].get('trait_pretty') or r2[0][2]['callee'].get('trait') or '').endswith('cmp::PartialEq'):
+            # the two pointers compared as `Option<NonNull<_>>` (or another wrapper that compares by address): `a == b` is a call of eq
+            thr_w = lambda t: [0] if U.callee_name(t) in ('new', 'new_unchecked', 'cast', 'cast_mut', 'cast_const', 'as_ptr', 'from') and \
+                ('ptr::' in t['callee'].get('path', '') or 'NonNull' in t['callee'].get('path', '')) else None
+            srcs = set()
+            for a_ in r2[0][2]['args']:
+                srcs |= {o[1] for o in rv.origins(a_, through_calls=thr_w) if o[0] == 'call'}
+            if {asp[0][0], cell[0].bb} == srcs:
+                guard = ((U.callee_name(r2[0][2]) == 'ne') == r2[1])
     col.add('CACHE-SHAPE', 'revalidate|reload iff changed', guard is True,
             'the reload is control dependent on the UNEQUAL outcome of cached pointer vs current pointer' if guard else 'reload guarded by: %s' % guard, rv.loc(lf[0][0]))
     # same container on both sides
